@@ -529,3 +529,29 @@ mod test {
         assert_eq!(resolve_one, IpAddr::V4(Ipv4Addr::new(10, 0, 0, 1)));
     }
 }
+
+/// Verification hook (compiled only with the `verif-hooks` cargo feature): public access to the
+/// crate-private address ordering so that counterexamples can be replayed from outside the crate.
+#[cfg(feature = "verif-hooks")]
+#[doc(hidden)]
+pub mod verif_hooks {
+    use super::{IpVersion, SocketAddr, SocketAddrs};
+
+    /// `SocketAddrs::set_port` followed by `SocketAddrs::sort_preferred`, front-to-back result.
+    pub fn order(
+        addrs: Vec<SocketAddr>,
+        port: Option<u16>,
+        prefer: Option<IpVersion>,
+    ) -> Vec<SocketAddr> {
+        let mut addrs: SocketAddrs = addrs.into_iter().collect();
+        if let Some(port) = port {
+            addrs.set_port(port);
+        }
+        addrs.sort_preferred(prefer);
+        let mut out = Vec::new();
+        while let Some(addr) = addrs.pop() {
+            out.push(addr);
+        }
+        out
+    }
+}
